@@ -300,8 +300,12 @@ impl GetType for ComparisonExpr {
         if self.lhs.map_each_count() > 0 {
             Type::Array(Type::Bool.into())
         } else if self.op == ComparisonOpExpr::IsTrue {
-            // Bool or Array(Bool)
-            self.lhs.get_type()
+            // Bool or Array(Bool): a bare `Map(Bool)` value is compiled to the
+            // list of its values, exactly like an `Array(Bool)`.
+            match self.lhs.get_type() {
+                Type::Map(ty) => Type::Array(ty),
+                ty => ty,
+            }
         } else {
             Type::Bool
         }
